@@ -103,26 +103,19 @@ def r1(ctx, rep):
     clears = [w for w in lifecycle.flag_writes(m) if w[1] in ('&=~', '=', '?') and not (w[0] == 'Tableau.__init__' and w[1] == '=')]
     astq.need(clears, 'no statement clears PREMATURE: a tableau could never complete')
     for qn, op, bits, guards, st in clears:
-        pos = {t for t, p in guards if p}
-        ok = qn == 'Tableau.step' and bits == ('PREMATURE',) and ({'entry is None', 'not entry'} & pos) and \
-            'not self._is_max_steps_exceeded()' in pos
-        rep.instance(R1, ok=bool(ok), sample=dict(stmt=astq.u(st), guards=sorted(pos)), nontrivial=('clear', qn))
+        ok = qn == 'Tableau.step' and bits == ('PREMATURE',) and op == '&=~'
+        rep.instance(R1, ok=bool(ok), sample=dict(stmt=astq.u(st)), nontrivial=('clear', qn))
         if not ok:
             rep.finding(R1, f'C01.R1/clear/{qn}/{"+".join(bits)}', m.loc(TAB, st), qn,
-                        f'`{astq.u(st)}` clears/overwrites flag bits outside the reviewed place (step(), no applicable rule, limit not hit)')
-    step = m.func(TAB, 'Tableau.step')
-    ent = [st for t, st in astq.stores(step) if isinstance(t, ast.Name) and t.id == 'entry' and astq.u(st.value) != 'None']
-    ok = len(ent) == 1 and astq.u(ent[0].value) == 'self.next()'
-    rep.instance(R1, ok=ok, nontrivial='entry=self.next()')
-    if not ok:
-        rep.finding(R1, 'C01.R1/step/entry', m.loc(TAB, step), 'Tableau.step', '`entry` is not exactly the result of self.next()')
-    nxt = m.func(TAB, 'Tableau.next')
-    txt = astq.u(nxt)
-    ok = 'for branch in self.open' in txt and 'for group in self.rules.groups' in txt and 'self._get_group_application(branch, group)' in txt
-    rep.instance(R1, ok=ok, nontrivial='next-scans-all')
-    rep.consult(m.loc(TAB, nxt) + ' Tableau.next')
-    if not ok:
-        rep.finding(R1, 'C01.R1/next', m.loc(TAB, nxt), 'Tableau.next', 'no longer scans every open branch x every rule group')
+                        f'`{astq.u(st)}` clears/overwrites flag bits outside step()')
+    # when step() clears it: folded over all states (limit hit / nothing applicable / entry applicable)
+    for fold in (lifecycle.fold_step, lifecycle.fold_next):
+        res, cons = fold(m)
+        rep.consult(*cons)
+        for ok, case, detail in res:
+            rep.instance(R1, ok=ok, nontrivial=(fold.__name__, case))
+            if not ok:
+                rep.finding(R1, f'C01.R1/{fold.__name__[5:]}/{case}', cons[0].split(' ')[0], f'Tableau.{fold.__name__[5:]}', f'{case}: {detail}')
 
 
 def r2(ctx, rep):
